@@ -267,6 +267,7 @@ func vfC05Run(br vfBridge, entKey uint64, victimIsClient bool, specs []vfFrameSp
 	if s.Ep.ReadErr() == nil {
 		return "VIOL[c05-no-error-at-eof]: Read did not return after the stream ended", true
 	}
+	vfCloseTwice(s.Ep.Conn())
 	return "", true
 }
 
